@@ -381,7 +381,9 @@ def gen_regexes(mods):
             term, groups, why = tr_pattern(e["pattern"], e["flags"])
         if e["kind"] not in ("match", "split"):
             term, why = ".bad", "unmodelled re.%s" % e["kind"]
-        out.append("/-- %s  `%s`%s -/" % (e["where"], (e["pattern"] or "?").replace("-/", "- /"), (" UNSUPPORTED: " + why) if why else ""))
+        # no line number in the Lean text: a shifted line must not change the generated file (and force a rebuild)
+        where_txt = re.sub(r"\.py:\d+", ".py", e["where"])
+        out.append("/-- %s  `%s`%s -/" % (where_txt, (e["pattern"] or "?").replace("-/", "- /"), (" UNSUPPORTED: " + why) if why else ""))
         out.append("def %s : Re :=\n  %s" % (e["name"], term))
         if groups or (e["pattern"] and "(?P<" in e["pattern"]):
             out.append("def %s_groups : List (String × Nat) := [%s]" % (e["name"], ", ".join('("%s", %d)' % kv for kv in sorted(groups.items(), key=lambda kv: kv[1]))))
